@@ -23,7 +23,34 @@ if [ ! -x .build/goroot/bin/go ] || [ "$(cat .build/goroot/.verif-src 2>/dev/nul
   S=.build/goroot/src/runtime/select.go
   cp "$S" .build/select.go.orig
   rm -f "$S"
-  sed -e 's/j := cheaprandn(uint32(norder + 1))/j := uint32(norder)/' .build/select.go.orig > "$S"
+  # VERIF_SELECT=last reverses the poll order (the last ready case in source order wins): the explorer
+  # runs chosen scenarios under both orders, which covers the two extreme resolutions of every racing select.
+  python3 - "$S" <<'PYEOF'
+import sys
+dst = sys.argv[1]
+s = open('/verif/.build/select.go.orig').read()
+a = 'j := cheaprandn(uint32(norder + 1))'
+b = '\tpollorder = pollorder[:norder]\n'
+assert s.count(a) == 1 and s.count(b) == 1
+s = s.replace(a, 'j := uint32(norder)')
+s = s.replace(b, b + '\tif verifSelectLast() {\n\t\tfor x, y := 0, norder-1; x < y; x, y = x+1, y-1 {\n\t\t\tpollorder[x], pollorder[y] = pollorder[y], pollorder[x]\n\t\t}\n\t}\n')
+s += """
+// verif: select poll order is deterministic; VERIF_SELECT=last makes the last ready case win.
+var verifSelMode uint32
+
+func verifSelectLast() bool {
+	if verifSelMode == 0 {
+		if gogetenv("VERIF_SELECT") == "last" {
+			verifSelMode = 2
+		} else {
+			verifSelMode = 1
+		}
+	}
+	return verifSelMode == 2
+}
+"""
+open(dst, 'w').write(s)
+PYEOF
   if [ "$(grep -c 'j := uint32(norder)' "$S")" != 1 ]; then echo "setup: select patch did not apply" >&2; exit 2; fi
   echo "$SRCROOT" > .build/goroot/.verif-src
 fi
